@@ -1,8 +1,9 @@
 /-
   The life-cycle invariants along histories of the stepped Core model: `LifeInv` (C06 "no placeholder outlives its
   application"; C10 "terminated applications leave the partition", "a Completed application holds no real allocation") is
-  preserved by every operation; `NoPendInv` (C10 "an application with outstanding asks is not Completing / Completed") by
-  every operation except a node removal that rolls back an in-flight swap (`NoRollback` excludes it).
+  preserved by every operation; so is `NoPendInv` (C10 "an application with outstanding asks is not Completing /
+  Completed") — also by a node removal that rolls back an in-flight swap, since `Application.DeallocateAsk` moves a
+  Completing application back to Running (repair 20ee082; before it that step was the exception, `NoRollback` excluded it).
 -/
 import YkProofs.Core2LifeA
 import YkProofs.Core2LifeB
@@ -22,17 +23,20 @@ theorem life_nodeRemove (s : Core) (id : String) (order : List (String × String
     obtain ⟨hb1, hw1, _⟩ := nodeLoop_props id _ _ hw0 hb0 (hok n hn)
     exact lifeInv_dropNode _ id _ _ (life_sweepTerminated _ hw1 hb1 hL)
 
+/-- partition.removeNode keeps the clause about asks — also when it rolls a swap back: the loop keeps `NoPendMid`, the
+    sweep of the terminated applications restores `NoPendInv` -/
 theorem nopend_nodeRemove (s : Core) (id : String) (order : List (String × String)) (hw : CoreWF s) (hb : Books s)
-    (hl : LifeInv s) (hp : NoPendInv s) (hok : NodeRemoveOK s id order) (hnr : NoRollback s id order) :
+    (hl : LifeInv s) (hp : NoPendInv s) (hok : NodeRemoveOK s id order) :
     NoPendInv (s.nodeRemove id order) := by
   unfold nodeRemove
   split
   · exact hp
   · rename_i n hn
-    have hP := nopend_nodeRemove_loop s id order hw hb hl hp hnr hn
+    have hP := nopendMid_nodeRemove_loop s id order hw hb hl hp hok hn
+    have hL := lifeCore_nodeRemove_loop s id order hw hb hl hok hn
     obtain ⟨hb0, hw0, _⟩ := unreserveFold_props id n.reservations s hw hb
     obtain ⟨hb1, hw1, _⟩ := nodeLoop_props id _ _ hw0 hb0 (hok n hn)
-    exact nopend_dropNode _ id _ _ (nopend_sweepTerminated _ hw1 hb1 hP)
+    exact nopend_dropNode _ id _ _ (nopend_sweepTerminated_mid _ hw1 hb1 hL hP)
 
 /-- what a step needs for the life-cycle invariant beyond `Op.ok2`: a new application is not submitted as terminated, the
     placeholder timer announces Failing (Hard) or Resuming (Soft) or nothing -/
@@ -41,7 +45,8 @@ def Op.okLife : Op → Prop
   | .phTimeout _ ev => ev = none ∨ ev = some "Failing" ∨ ev = some "Resuming"
   | _ => True
 
-/-- … and for the clause about asks: a node removal does not roll back an in-flight swap -/
+/-- a node removal does not roll back an in-flight swap (no longer needed for the clause about asks; kept for the
+    `_partial` form of the C10 theorem) -/
 def Op.okNoPend (s : Core) : Op → Prop
   | .nodeRemove id order => NoRollback s id order
   | _ => True
@@ -83,13 +88,13 @@ theorem step_life (s : Core) (op : Op) (hw : CoreWF s) (hb : Books s) (hk : Link
 
 /-- one step keeps the clause about asks -/
 theorem step_nopend (s : Core) (op : Op) (hw : CoreWF s) (hb : Books s) (hk : Linked s) (hl : LifeInv s) (hp : NoPendInv s)
-    (hok : op.ok2 s) (hol : op.okLife) (hon : op.okNoPend s) : NoPendInv (op.apply s) := by
+    (hok : op.ok2 s) (hol : op.okLife) : NoPendInv (op.apply s) := by
   have hfull := ok_of_ok2 s op hk hok
   cases op with
   | nodeCreate id cap b => exact nopend_nodeCreate s id cap b hp
   | nodeUpdate id cap => exact nopend_nodeUpdate s id cap hp
   | nodeSchedulable id b => exact nopend_nodeSchedulable s id b hp
-  | nodeRemove id order => exact nopend_nodeRemove s id order hw hb hl hp hfull hon
+  | nodeRemove id order => exact nopend_nodeRemove s id order hw hb hl hp hfull
   | foreignAdd key node res => exact nopend_foreignAdd s key node res hp
   | foreignRemove key => exact nopend_foreignRemove s key hp
   | appAdd a nq => exact nopend_appAdd s a nq hp hol
@@ -141,15 +146,14 @@ theorem reachable_life (s : Core) (ops : List Op) (h : CoreInv s) (hok : RunLife
     obtain ⟨hb', hw'⟩ := step_props s op h.wf h.books (ok_of_ok2 s op h.linked h1)
     exact ih (op.apply s) ⟨hw', hb', step_linked s op h.wf h.books h.linked h1, step_life s op h.wf h.books h.linked h.life h1 h1'⟩ h2
 
-theorem reachable_nopend (s : Core) (ops : List Op) (h : CoreInv s) (hp : NoPendInv s) (hok : RunLifeOK s ops)
-    (hnr : RunNoRollback s ops) : NoPendInv (run s ops) := by
+theorem reachable_nopend (s : Core) (ops : List Op) (h : CoreInv s) (hp : NoPendInv s) (hok : RunLifeOK s ops) :
+    NoPendInv (run s ops) := by
   induction ops generalizing s with
   | nil => exact hp
   | cons op t ih =>
     obtain ⟨⟨h1, h1'⟩, h2⟩ := hok
-    obtain ⟨n1, n2⟩ := hnr
     obtain ⟨hb', hw'⟩ := step_props s op h.wf h.books (ok_of_ok2 s op h.linked h1)
     exact ih (op.apply s) ⟨hw', hb', step_linked s op h.wf h.books h.linked h1, step_life s op h.wf h.books h.linked h.life h1 h1'⟩
-      (step_nopend s op h.wf h.books h.linked h.life hp h1 h1' n1) h2 n2
+      (step_nopend s op h.wf h.books h.linked h.life hp h1 h1') h2
 
 end Yk
